@@ -73,6 +73,11 @@ func newEventFromUntrustedJSONV3(eventJSON []byte, roomVersion IRoomVersion) (PD
 	if err := roomVersion.CheckCanonicalJSON(eventJSON); err != nil {
 		return nil, BadJSONError{err}
 	}
+	// A member that occurs twice has no single meaning: gjson / sjson act on the first
+	// copy, encoding/json on the last, and the content hash would be taken over both.
+	if err := checkUniqueTopLevelKeys(eventJSON); err != nil {
+		return nil, BadJSONError{err}
+	}
 
 	res := &eventV3{}
 	var err error
